@@ -57,6 +57,9 @@ type Cfg struct {
 	Crypto      config.CryptoConfig // write side
 	CryptoRead  config.CryptoConfig // read side
 	NoWriteOps  bool
+	// optional seams for fault injection (the production code takes interfaces / function values here)
+	WrapPersister func(config.MetadataPersister) config.MetadataPersister `json:"-"`
+	WrapBackend   func(config.BackendConfig) config.BackendConfig         `json:"-"`
 }
 
 func DefaultCfg() Cfg {
@@ -113,9 +116,16 @@ func NewEnvAt(dir, drive, db string, c Cfg) (*Env, error) {
 	if err := e.MP.Open(); err != nil {
 		return nil, err
 	}
-	mc := config.MetadataConfig{Metadata: e.MP}
+	var mpi config.MetadataPersister = e.MP
+	if c.WrapPersister != nil {
+		mpi = c.WrapPersister(mpi)
+	}
+	mc := config.MetadataConfig{Metadata: mpi}
 	pc := config.PipeConfig{RecordSize: c.RS, Compression: c.Compression, Encryption: c.Encryption, Signature: c.Signature}
 	bc := config.BackendConfig{GetWriter: e.TM.GetWriter, CloseWriter: e.TM.Close, GetReader: e.TM.GetReader, CloseReader: e.TM.Close, MagneticTapeIO: mt}
+	if c.WrapBackend != nil {
+		bc = c.WrapBackend(bc)
+	}
 	e.ReadOps = operations.NewOperations(bc, mc, pc, c.CryptoRead, func(*config.HeaderEvent) {})
 	if !c.NoWriteOps {
 		e.WriteOp = operations.NewOperations(bc, mc, pc, c.Crypto, func(*config.HeaderEvent) {})
